@@ -215,6 +215,20 @@ def r3_r5_recv_loop(ctx):
                               f"a payload for a dataset that was {'already purged' if purged else 'not purged'} is {'stored (the dataset is resurrected after its purge)' if sub else 'dropped'}")
             else:
                 ctx.ok("C07.R3", loc(fi), f"payload for a {'purged' if purged else 'live'} dataset: {'discarded' if purged else 'store submitted'}")
+    # a purge and a late payload of the same dataset read in ONE batch: the payload is still discarded (the purge has been handled by then)
+    pg = Obj(MSG + "DatasetPurge", {"ds": D}, name="PURGE", frozen=False)
+    paths = _run_loop(repo, [pg, _payload(D)], _loop_env())
+    ctx.evals(len(paths))
+    for p in paths:
+        sub = _submits(p, "store_payload")
+        if p.exit[0] == "raise":
+            continue
+        if sub:
+            ctx.violation("C07.R3", fi.qual, loc(fi), "payload after purge in one batch",
+                          "messages [DatasetPurge(D), DatasetTransmitPayload(D)] received in one batch: the payload is stored although D was purged a moment earlier in the "
+                          "same batch — the dataset is resurrected and announced again (the 'already purged' test must see the effect of the purge handled before it)")
+        else:
+            ctx.ok("C07.R3", loc(fi), "purge and late payload of one dataset in one batch: payload discarded")
     # a transmit command: rejected for a purged dataset, recorded as awaiting confirmation and submitted otherwise
     paths = _run_loop(repo, [_cmd(D)], _loop_env())
     for p in paths:
@@ -375,3 +389,4 @@ RULES += [lazy("C06", "r3_retry_and_ack", "the listener's memory of acknowledged
           lazy("C04", "r1_purge_guard", "a requested output is not purged while its fetch is outstanding"),
           lazy("C02", "r9_executor_routing", "a purge reaches the data server (which waits for running transfers and invalidates pending ones), never the shm store directly")]
 RULES.append(lazy("C06", "r7b_acked_container_never_forgets", "a retried payload / command whose Syn was forgotten is stored or executed twice"))
+RULES.append(lazy("shm", "r_disk_copy", "what a transfer ships after the dataset was paged out and in again is byte-identical to what was stored"))
